@@ -195,8 +195,8 @@ class Interp:
             return bytes(*args, **kwargs)
         if fn is bool:
             return truth(args[0]) if args else False
-        if fn is int and len(args) == 1 and isinstance(args[0], _Ratio):
-            return args[0].a // args[0].b
+        if fn is int and len(args) == 1 and isinstance(args[0], V.SymFloat):
+            return args[0].to_int()
         if fn is int and len(args) == 1 and isinstance(args[0], (S.SymInt, S.SymBool)):
             return S.SymInt.lift(args[0]) if isinstance(args[0], S.SymBool) else args[0]
         if fn is int and len(args) == 1 and isinstance(args[0], S.SymStr):
@@ -511,7 +511,7 @@ class Interp:
     def e_BinOp(self, e, env, globs):
         a, b = self.eval(e.left, env, globs), self.eval(e.right, env, globs)
         if isinstance(e.op, ast.Div) and (isinstance(a, V.SymInt) or isinstance(b, V.SymInt)):
-            return _Ratio(a, b)  # PROBE ONLY: idealised real division
+            return V.sym_truediv(a, b)
         if isinstance(e.op, ast.Mult) and isinstance(b, V.SymInt) and isinstance(a, (bytes, bytearray)):
             return a * Engine.current.concretize(b)
         return _BINOPS[type(e.op)](a, b)
